@@ -52,8 +52,8 @@ func recordHistory(t failer, p *WorldProp, cfg sim.Config, next func(m *Machine,
 	// close the block in progress
 	m.C.EndBlock()
 	m.C.Commit()
-	if m.C.Halted != nil {
-		return nil
+	if m.C.Halted != nil || m.C.ValSetErr != nil {
+		return nil // halts and update lists the consensus engine rejects are C11's / C06's subject
 	}
 	return m
 }
